@@ -40,7 +40,8 @@ mutual
 theorem veq_refl : ∀ (t : Ty) (a : Val), HasType t a = true → VEq t a a
   | .tagged _ _ _ t, a, h => by
       simp only [VEq]; exact veq_refl t a (by simpa [HasType] using h)
-  | .prim _, a, _ => by simp [VEq]
+  | .prim p, a, _ => by
+      cases p <;> cases a <;> simp [VEq]
   | .any, a, _ => by simp [VEq]
   | .seq fs, a, h => by
       cases a <;> simp [HasType] at h
